@@ -248,6 +248,7 @@ def run(cx):
 
     # ---- C18-ROW -----------------------------------------------------------------------------
     c17.rule_dev_trunc(cx, "C18-ROW", em, only=lambda n: "_start_" in n or "_tick_" in n)
+    c17.rule_no_static(cx, "C18-STATELESS", em)
     r = cx.rule("C18-START", "start records row/text/speed/loop, resets the progress state and draws the first frame on the given row", floor=8)
     for n, f in anim.items():
         if "_start_" not in n:
